@@ -1,7 +1,8 @@
 /-
 Spec/TM.lean — reference semantics of Turing machines on two-way infinite, blank-extended
 tapes.  Independent of `TMTape`: a tape is a function `Int → Γ` indexed relative to the head
-(`tape 0` is the scanned cell); a step overwrites cell 0 and shifts.
+(`tape 0` is the scanned cell); a step overwrites cell 0 and shifts (`shift`, and `Tape.view` =
+what a stored `TMTape` stands for, are in `Spec/TMTape.lean`; this file imports no `Proofs/` module).
 
 * `VCfg` / `VMCfg`        configuration of a one-tape / multitape machine on such tapes;
 * `blankTape b w`         the input `w` from the head rightwards, blank everywhere else;
@@ -13,8 +14,7 @@ tapes.  Independent of `TMTape`: a tape is a function `Int → Γ` indexed relat
                                         breadth-first levels.
 -/
 import AutomataVerif.Model.TM
-import AutomataVerif.Proofs.TMTape
-import AutomataVerif.Proofs.QueueBFS
+import AutomataVerif.Spec.TMTape
 import Mathlib.Logic.Function.Iterate
 
 namespace AV.TM
